@@ -472,7 +472,9 @@ def _(e, st, raw, n, a, m):
 @summary(r'^Option::map$|^Option::and_then$')
 def _(e, st, raw, n, a, m):
     v = a[0]; f = a[1]
-    if v[0] == 'sadt': raise Unsupported('Option::map on symbolic Option')
+    if v[0] == 'sadt':
+        inner = v[3]['Some'][0]
+        return [(v[2] == 1, lambda s2: dispatch(e, s2, raw, [some(inner), f])), (v[2] == 0, NONE)]
     if v[2] == 'None': return [(T, NONE)]
     wrap_some = n.endswith('map')
     if f[0] == 'closure' or (f[0] == 'zst' and 'closure@' in f[1]):
